@@ -1304,20 +1304,12 @@ class Interp:
                 elif isinstance(v, Arr) and v.ndim == 1 and not _is_boolean(v.poly) and lab is not None and v.dims == (lab,):
                     scatters.append((lab, v.poly))
                     new_dims.append(cur_dims[ax]); ax += 1
-                elif isinstance(v, int) and not isinstance(v, bool) and len(chain_nodes) == 1 and len(idx) == 1 and old.ndim == 1 and old.mask is None \
-                        and lab in self.axis_len and -self.axis_len[lab] <= v < self.axis_len[lab] and self.axis_len[lab] <= 64 and not self._in_generic_loop_over(lab, env):
-                    # x[k] = v at a fixed position of an axis of known length
+                elif isinstance(v, int) and not isinstance(v, bool) and lab in self.axis_len and -self.axis_len[lab] <= v < self.axis_len[lab] \
+                        and not self._in_generic_loop_over(lab, env):
+                    # x[..., k, ...] = v at a fixed position of an axis of known length: the store lands where the running position is k
                     self.positional.append((lab, v, mod.path, sub.lineno))
-                    r_ = self._store_positions(old, [v % self.axis_len[lab]], val, t, mod, cond=self.path_cond_local())
-                    if r_ is None:
-                        setv(Unk('store at a constant position of a labelled axis', t))
-                        return
-                    setv(r_)
-                    _replace_aliases(env, old, r_)
-                    for fr_ in self.frames:
-                        if fr_ is not env:
-                            _replace_aliases(fr_, old, r_)
-                    return
+                    cond = cond * alg.mk_ind('==0', alg.sym('idx:' + lab, lab) - num(v % self.axis_len[lab]))
+                    ax += 1
                 elif isinstance(v, int) and not isinstance(v, bool):
                     self.positional.append((lab, v, mod.path, sub.lineno))
                     if lab is not None and self._in_generic_loop_over(lab, env):
@@ -1334,6 +1326,8 @@ class Interp:
         v = val
         if isinstance(v, (int, float)) and not isinstance(v, bool):
             v = Arr((), num(v))
+        if isinstance(v, str) and len(v) <= 60:
+            v = Arr((), alg.sym('str:' + v))          # a piece of text as an element of an array of strings: a constant that equals only itself
         if isinstance(v, Unk) or not isinstance(v, Arr):
             setv(v if isinstance(v, Unk) else Unk('non-array value stored into an array', t))
             return
@@ -1341,6 +1335,16 @@ class Interp:
             if not (v.mask == cond):
                 setv(Unk('masked value stored under a different mask', t))
                 return
+        if isinstance(v, Arr) and v.ndim and cur_dims:
+            for k_ in range(1, min(len(cur_dims), v.ndim) + 1):          # position-counting axes of the same length line up (trailing axes, as numpy broadcasts)
+                x_, y_ = cur_dims[-k_], v.dims[-k_]
+                if x_ and y_ and x_ != y_ and self._positional(x_) and (self._positional(y_) or y_ in self.axis_len) and self.axis_len[x_] == self.axis_len[y_] and x_ not in v.dims:
+                    v = self._relabel_axis(v, y_, x_)          # the buffer only counts positions: position k of it receives element k of the value's axis
+                elif x_ is None and y_ and self.axis_len.get(y_) == 1:
+                    # an axis of one known position stored along an axis of one (unlabelled) position: its only element
+                    d_ = list(v.dims)
+                    d_[len(d_) - k_] = None
+                    v = v.with_(dims=tuple(d_), poly=alg.index_at(v.poly, y_, num(0)), mask=None if v.mask is None else alg.index_at(v.mask, y_, num(0)))
         try:
             bdims(tuple(cur_dims), v.dims)
         except LabelClash as e:
@@ -1915,6 +1919,30 @@ class Interp:
     def _reshape_concrete(self, x, shape, node):
         """x.reshape(shape) for a 1-D array of known length and concrete extents: out[i, j, ...] is x[((i * n1) + j) * n2 + ...] (row-major); the
         extents have to multiply to len(x) (one of them may be -1), else numpy raises ValueError"""
+        if isinstance(x, Arr) and x.ndim >= 2 and x.mask is None and all(d_ is None or d_ in self.axis_len for d_ in x.dims):
+            # several axes of known length: the elements in row-major order, then as for a 1-d array
+            import itertools as _it
+            ext_ = [1 if d_ is None else self.axis_len[d_] for d_ in x.dims]
+            tot_ = 1
+            for v_ in ext_:
+                tot_ *= v_
+            if tot_ > 256:
+                return None
+            el_ = []
+            for ix_ in _it.product(*[range(v_) for v_ in ext_]):
+                p_ = x.poly
+                for d_, i_ in zip(x.dims, ix_):
+                    if d_ is not None:
+                        p_ = alg.index_at(p_, d_, num(i_))
+                el_.append(p_)
+            self._n_lists = getattr(self, '_n_lists', 0) + 1
+            lab_ = 'pos#%d' % self._n_lists
+            self.axis_len[lab_] = tot_
+            run_ = alg.sym('idx:' + lab_, lab_)
+            fp_ = Poly()
+            for j_, e_ in enumerate(el_):
+                fp_ = fp_ + alg.mk_ind('==0', run_ - num(j_)) * e_
+            x = Arr((lab_,), fp_, unit=x.unit, dt=x.dt)
         if not (isinstance(x, Arr) and x.ndim == 1 and x.dims[0] is not None and x.mask is None):
             return None
         n = self.axis_len.get(x.dims[0])
@@ -1946,6 +1974,9 @@ class Interp:
         elems = [alg.index_at(x.poly, x.dims[0], num(k)) for k in range(n)]
         labs = []
         for ext in sh:
+            if ext == 1:
+                labs.append(None)
+                continue
             self._n_lists = getattr(self, '_n_lists', 0) + 1
             lab = 'pos#%d' % self._n_lists
             self.axis_len[lab] = ext
@@ -1955,7 +1986,8 @@ class Interp:
         for k, ix in enumerate(_it.product(*[range(ext) for ext in sh])):
             t = elems[k]
             for lab, i_ in zip(labs, ix):
-                t = t * alg.mk_ind('==0', alg.sym('idx:' + lab, lab) - num(i_))
+                if lab is not None:
+                    t = t * alg.mk_ind('==0', alg.sym('idx:' + lab, lab) - num(i_))
             p = p + t
         return Arr(tuple(labs), p, unit=x.unit, dt=x.dt)
 
@@ -2701,8 +2733,15 @@ class Interp:
                 if isinstance(sh, tuple):
                     dims = []
                     for s in sh:
+                        if isinstance(s, Arr) and s.ndim == 0 and s.poly.is_const() and s.poly.const_value().denominator == 1:
+                            s = int(s.poly.const_value())
                         if isinstance(s, int) and not isinstance(s, bool) and s == 1:
                             dims.append(None)
+                            continue
+                        if isinstance(s, int) and not isinstance(s, bool) and 0 <= s <= 64:
+                            self._n_lists = getattr(self, '_n_lists', 0) + 1
+                            dims.append('pos#%d' % self._n_lists)          # a concrete extent: an axis that only counts positions
+                            self.axis_len[dims[-1]] = s
                             continue
                         lab = lab_of(s)
                         if lab is None:
